@@ -104,6 +104,7 @@ class Ctx:
         self.axioms: dict[str, list[str]] = {}
         self.checker_cmd = ""
         self.driver_ok = True
+        self.translator_failures: dict[str, tuple[str, str]] = {}
         self.shrinker = None
         kf = _load_findings()
         self.known = {e["id"]: e for e in kf["findings"] if e["property"] == prop and e.get("status") == "known"}
@@ -121,9 +122,9 @@ class Ctx:
         try:
             fn(REPO, LEAN_DIR / "MxlVerif" / "Generated")
         except Exception as e:  # noqa: BLE001
-            self.proof_ok = False
-            self.broken_obligations.append(f"translator {getattr(fn, '__module__', '?')}: {e!r}")
-            self.proof_log += traceback.format_exc()
+            # decided in build(): a translator that fails leaves its Generated/ file stale, which breaks exactly the
+            # properties whose theorems or driver handler import that file -- not the other properties' checks
+            self.translator_failures[getattr(fn, "__module__", "?")] = (repr(e), traceback.format_exc())
 
     def _translate_all(self) -> None:
         import importlib
@@ -139,10 +140,49 @@ class Ctx:
                 if hasattr(mod, "generate"):
                     self.translate(mod.generate)
 
+    def _import_closure(self, roots: list[str]) -> set[str]:
+        """project-local modules reachable from `roots` through `import` lines"""
+        seen: set[str] = set()
+        todo = list(roots)
+        while todo:
+            m = todo.pop()
+            if m in seen:
+                continue
+            path = LEAN_DIR / (m.replace(".", "/") + ".lean")
+            if not path.exists():
+                continue
+            seen.add(m)
+            for line in strip_comments(path.read_text()).splitlines():
+                mm = re.match(r"\s*(?:public\s+)?import\s+(\S+)", line)
+                if mm and (mm.group(1).startswith("MxlVerif.") or mm.group(1).startswith("Driver.")):
+                    todo.append(mm.group(1))
+        return seen
+
+    def _judge_translator_failures(self, props_modules: list[str]) -> None:
+        """A failed translator `translate.cNN` leaves `Generated/CNN*.lean` as it was (stale).  That breaks this property's
+        proof side iff its theorem modules or its driver handler import such a file; otherwise it is only noted."""
+        if not self.translator_failures:
+            return
+        handler = f"Driver.H_{self.prop.lower()}"
+        if not (LEAN_DIR / (handler.replace(".", "/") + ".lean")).exists():
+            handler = "Driver.H_core"
+        closure = self._import_closure([*props_modules, handler])
+        for mod, (err, tb) in sorted(self.translator_failures.items()):
+            tag = mod.rsplit(".", 1)[-1].upper()  # translate.c09 -> C09
+            used = sorted(m for m in closure if m.startswith("MxlVerif.Generated." + tag))
+            if used or not re.fullmatch(r"C\d\d", tag):
+                self.proof_ok = False
+                self.broken_obligations.append(f"translator {mod}: {err} (stale: {used})")
+                self.proof_log += tb
+            else:
+                self.notes.append(f"translator {mod} failed ({err[:160]}); no module of this property imports Generated.{tag}*: "
+                                  "it does not bear on this property and is reported by the checks that do")
+
     def build(self, props_modules: list[str], need_driver: bool = True) -> None:
         """regenerate Generated/*.lean from /repo, lake build the driver and the property's theorem
         modules; audit them."""
         self._translate_all()
+        self._judge_translator_failures(props_modules)
         with LakeLock():
             if need_driver:
                 rc, out = _sh(["lake", "build", "driver"], cwd=LEAN_DIR)
